@@ -2,7 +2,7 @@
    Statements only; proofs in Proofs/LimitProofs.v.  Models: Model/Limit.v (run validators over the regenerated
    Gen_limit tables).  `closed` is the networkx representation invariant "edge endpoints are nodes". *)
 From stdpp Require Import strings gmap sets.
-From CG Require Import Model.Limit Proofs.LimitProofs Proofs.LimitLint Proofs.LimitTotal.
+From CG Require Import Model.Limit Proofs.LimitProofs Proofs.LimitLint Proofs.LimitTotal Proofs.LimitApi.
 Open Scope string_scope.
 
 (* obligation on the tables regenerated from tx.py: for every multi-input type t, gatemap t is the non-inverting
@@ -62,6 +62,16 @@ Theorem C05_limit_fanout_lint_clean : ∀ C k steps C', closed (c_g C) → lint_
   limit_fanout_run C k steps = Ok C' → lint_clean C'.
 Proof. intros C k steps C'. exact (limit_fanout_lint _ C k steps C' C05_tables_ok). Qed.
 Print Assumptions C05_limit_fanout_lint_clean.
+
+(* tie through the validated API model: the correspondence check replays every implementation run through
+   `limit_fanin_run_api` / `limit_fanout_run_api`, which are written with Base/Api.v's disconnect_g / add_g(uid) / connect_g;
+   whenever those return a circuit, the direct validators (about which the theorems above speak) return the same circuit *)
+Theorem C05_limit_fanin_api : ∀ C k steps C', closed (c_g C) → limit_fanin_run_api C k steps = Ok C' → limit_fanin_run C k steps = Ok C'.
+Proof. intros C k steps C'. exact (limit_fanin_run_api_sound C k steps C' C05_tables_ok). Qed.
+Print Assumptions C05_limit_fanin_api.
+Theorem C05_limit_fanout_api : ∀ C k steps C', closed (c_g C) → limit_fanout_run_api C k steps = Ok C' → limit_fanout_run C k steps = Ok C'.
+Proof. intros C k steps C'. exact (limit_fanout_run_api_sound C k steps C' C05_tables_ok). Qed.
+Print Assumptions C05_limit_fanout_api.
 
 (* termination / non-rejection: for EVERY well-formed circuit (networkx invariant, lint-clean, names that `add` accepts,
    no edge out of a bb_input -- `connect` never makes one) and every k >= 2 the validators accept SOME step list, i.e.
